@@ -18,14 +18,17 @@ B2N(b) == IF b THEN 1 ELSE 0
 \* deviations of one field / variant / the type options
 FieldDev(f) ==
   B2N(f.eq # Own) + B2N(f.ord # Own) + B2N(f.rank # NoRank) + B2N(f.hash # Own) + B2N(f.dbg # Own)
-  + B2N(f.key # "") + B2N(f.clone # Own) + B2N(f.dflt # "none") + B2N(f.deref) + B2N(f.dmut) + Len(f.into)
+  + B2N(f.key # "") + B2N(f.clone # Own) + B2N(f.dflt # "none") + B2N(f.deref) + B2N(f.dmut) + B2N(f.into # <<>>)
 RECURSIVE FieldsDev(_)
 FieldsDev(fs) == IF fs = <<>> THEN 0 ELSE FieldDev(Head(fs)) + FieldsDev(Tail(fs))
 VarDev(var) == B2N(var.dname # "default") + B2N(var.dnf # "default") + FieldsDev(var.fields)
 RECURSIVE VarsDev(_)
 VarsDev(vs) == IF vs = <<>> THEN 0 ELSE VarDev(Head(vs)) + VarsDev(Tail(vs))
 OptsDev(o) ==
-  B2N(o.dname # "default") + B2N(o.dnf # "default") + B2N(o.newfn) + B2N(o.eqvia # "PartialEq") + B2N(o.ordvia # "Ord")
+  B2N(o.dname # "default") + B2N(o.dnf # "default") + B2N(o.newfn)
+  \* which attribute name carries the parameters is only a choice when both partners are educed
+  + B2N(o.eqvia = "Eq" /\ {"PartialEq", "Eq"} \subseteq SeqToSet(o.traits))
+  + B2N(o.ordvia = "PartialOrd" /\ {"PartialOrd", "Ord"} \subseteq SeqToSet(o.traits))
 Deviations(c) == OptsDev(c.opts) + VarsDev(c.variants)
 
 Has(c, t) == HasTrait(c, t)
@@ -52,7 +55,7 @@ ApplyOpt(o, tw) ==
     [] tw = "ordvia" -> [o EXCEPT !.ordvia = "PartialOrd"]
 
 MultiTypeOptSet(k) ==
-  UNION { LET base == [DefOpts EXCEPT !.traits = ts]
+  UNION { LET base == [DefOpts EXCEPT !.traits = ts, !.targets = IF "Into" \in SeqToSet(ts) THEN <<"A", "B">> ELSE <<>>]
               one == { ApplyOpt(base, tw) : tw \in OptTweaks(k, ts) }
               two == { ApplyOpt(o, tw) : o \in one, tw \in OptTweaks(k, ts) }
           IN {base} \cup (IF MaxDev(k) >= 1 THEN one ELSE {})
@@ -86,6 +89,8 @@ FieldTweaks(c) ==
      \cup (IF Has(c, "Debug") THEN {"dbg_i", "dbg_m", "key"} ELSE {})
      \cup (IF Has(c, "Clone") /\ ~(c.kind = "struct" /\ Has(c, "Copy")) THEN {"clone_m"} ELSE {})
      \cup (IF defaultable THEN {"dflt_int", "dflt_expr"} ELSE {})
+     \cup (IF Has(c, "Into") THEN {"into_a", "into_am", "into_ab", "into_amb"} ELSE {})
+Mk(t, m) == [t |-> t, m |-> m]
 ApplyField(f, tw) ==
   CASE tw = "eq_i" -> [f EXCEPT !.eq = Ignore]   [] tw = "eq_m" -> [f EXCEPT !.eq = Method]
     [] tw = "ord_i" -> [f EXCEPT !.ord = Ignore] [] tw = "ord_m" -> [f EXCEPT !.ord = Method]
@@ -95,6 +100,11 @@ ApplyField(f, tw) ==
     [] tw = "key" -> [f EXCEPT !.key = "k"]
     [] tw = "clone_m" -> [f EXCEPT !.clone = Method]
     [] tw = "dflt_int" -> [f EXCEPT !.dflt = "int"] [] tw = "dflt_expr" -> [f EXCEPT !.dflt = "expr"]
+    \* Into markers (the field-level tweak counts once per marker)
+    [] tw = "into_a" -> [f EXCEPT !.into = <<Mk("A", FALSE)>>]
+    [] tw = "into_am" -> [f EXCEPT !.into = <<Mk("A", TRUE)>>]
+    [] tw = "into_ab" -> [f EXCEPT !.into = <<Mk("A", FALSE), Mk("B", FALSE)>>]
+    [] tw = "into_amb" -> [f EXCEPT !.into = <<Mk("A", TRUE), Mk("B", FALSE)>>]
 
 MultiFieldSet(c) ==
   IF NVariants(c) = 0 THEN {}
@@ -119,5 +129,6 @@ MultiAdmissible(c) ==
   /\ (Has(c, "PartialOrd") \/ Has(c, "Ord")) => RanksUnique(c)
   /\ Has(c, "Debug") => DebugPrintable(c)
   /\ Has(c, "Default") => DefaultWellDesignated(c)
+  /\ Has(c, "Into") => IntoWellDesignated(c)
   /\ (c.kind = "enum" /\ NVariants(c) > 1 /\ ~Has(c, "Default")) => \A v \in 1..NVariants(c) : ~c.variants[v].dflt
 =============================================================================
